@@ -78,5 +78,5 @@ Print Assumptions C01_printed_expression_rereads.
     operator, as the base of an index or operand of a sign *)
 Theorem C01_operand_shapes : forall c, c_scope c = [] -> forall e, wfr e -> forall w ps, wx c w e = Ok ps ->
   exists ts, ptoks ps = Some ts /\ Shape w ts (trans (fun _ => false) (mode_eqb (c_mode c) ModeJoin) e).
-Proof. exact wx_reads. Qed.
+Proof. exact wx_reads_empty. Qed.
 Print Assumptions C01_operand_shapes.
